@@ -25,8 +25,10 @@ def h07(c, U=3, R=1, other_market=False, suspensions=False, real_time_error=Fals
     reqs = [c.choose("request%d" % r, ["place", "cancel", "update", "replace"]) for r in range(R)]
     # (asynchronous placement only changes how the live exchange answers: the simulated timing is the same)
     async_place = c.choose("async_place_orders", [False, True]) if "place" in reqs else False
+    # (the middleware has one branch per isolation mode: both are walked)
+    iso = c.choose("simulated_strategy_isolation", [True, False]) if "place" in reqs else True
     with cm.config_set(simulated=True, place_latency=lat["place"], cancel_latency=lat["cancel"], update_latency=lat["update"], replace_latency=lat["replace"],
-                       async_place_orders=async_place):
+                       async_place_orders=async_place, simulated_strategy_isolation=iso):
         u_req = c.choose("request_at_update", list(range(0, U - 1)))
         staggered = c.choose("requests_made_at_consecutive_updates", [False, True]) if (R > 1 and c.is_true(u_req + R - 1 <= U - 2)) else False
         if staggered:
